@@ -299,14 +299,13 @@ def run(scn, prop=None):
             aioloop.install()
             aio['loop'] = aioloop.SimLoop()
             aio['loop'].set_exception_handler(lambda lp, ctx: None)
-            orig_log = child._log
 
-            def logged(s_, direction):
+            def delivered(s_):
                 # the asyncio transport's deliveries do not pass through read_nonblocking: record them here
-                if direction == 'read' and aio['await']:
+                if aio['await']:
                     child.chunks.append(s_)
-                return orig_log(s_, direction)
-            child._log = logged
+            aio['tap'] = delivered
+            harness.tap_reads(child, delivered)
 
         async def adrain(to):
             try:
@@ -328,12 +327,13 @@ def run(scn, prop=None):
                     name = op['name']
                     if periods.get(name) and periods[name][-1][2] is None:
                         periods[name][-1][2] = len(events)
+                    tap = aio.get('tap') if name == 'logfile_read' else None
                     if op['to'] == 'new':
                         lg = SeqLog(ctr, name)
-                        setattr(child, name, lg)
+                        setattr(child, name, harness.TapLog(lg, tap) if tap else lg)
                         periods.setdefault(name, []).append([lg, len(events), None])
                     else:
-                        setattr(child, name, None)
+                        setattr(child, name, harness.TapLog(None, tap) if tap else None)
                     w.probe('log_file_switched_between_calls')
                 elif kind == 'setattr':
                     if op.get('k') == 'linesep':
